@@ -184,6 +184,61 @@ func c16(args []string) {
 			jobs = append(jobs, &job{s: s2, exp: exp2, cfg: Cfg{Buf: 2, Procs: 2, SoftSec: 8}, kind: "runto", what: mode + " wanted (shared sources, buffer 2)"})
 		}
 	}
+	// one in-port fed by a raw stream and by streams derived from it (feeders that are ancestors of other feeders)
+	{
+		s := &spec.Spec{Name: "gather", MaxTasks: 4, Sources: map[string]string{"g0.txt": "g0", "g1.txt": "g1"}}
+		in := []spec.PortDecl{{Name: "in"}}
+		o1 := []spec.PortDecl{{Name: "out"}}
+		s.Procs = append(s.Procs, &spec.Proc{Name: "src", Kind: spec.KFileSource, Files: []string{"g0.txt", "g1.txt"}},
+			&spec.Proc{Name: "d1", Kind: spec.KCmd, Cmd: spec.BuildCmd("d1", in, o1, nil, nil, nil)},
+			&spec.Proc{Name: "d2", Kind: spec.KCmd, Cmd: spec.BuildCmd("d2", in, o1, nil, nil, nil)},
+			&spec.Proc{Name: "d3", Kind: spec.KCmd, Cmd: spec.BuildCmd("d3", in, o1, nil, nil, nil)},
+			&spec.Proc{Name: "gatherer", Kind: spec.KCmd, Cmd: spec.BuildCmd("gatherer", in, o1, nil, nil, nil)},
+			&spec.Proc{Name: "later", Kind: spec.KCmd, Cmd: spec.BuildCmd("later", in, o1, nil, nil, nil)})
+		s.Conns = append(s.Conns, &spec.Conn{From: "src.out", To: "d1.in"}, &spec.Conn{From: "d1.out", To: "d2.in"}, &spec.Conn{From: "d2.out", To: "d3.in"},
+			&spec.Conn{From: "src.out", To: "gatherer.in"}, &spec.Conn{From: "d1.out", To: "gatherer.in"}, &spec.Conn{From: "d2.out", To: "gatherer.in"}, &spec.Conn{From: "d3.out", To: "gatherer.in"},
+			&spec.Conn{From: "gatherer.out", To: "later.in"})
+		// sibling feeders derived from the raw feeder, wired in every order
+		perms := [][]string{{"src", "a", "b"}, {"src", "b", "a"}, {"a", "src", "b"}, {"a", "b", "src"}, {"b", "src", "a"}, {"b", "a", "src"}}
+		for pi, perm := range perms {
+			sb := &spec.Spec{Name: fmt.Sprintf("gathersib%d", pi), MaxTasks: 4, Sources: map[string]string{"g0.txt": "g0"}}
+			sb.Procs = append(sb.Procs, &spec.Proc{Name: "src", Kind: spec.KFileSource, Files: []string{"g0.txt"}},
+				&spec.Proc{Name: "a", Kind: spec.KCmd, Cmd: spec.BuildCmd("a", in, o1, nil, nil, nil)},
+				&spec.Proc{Name: "b", Kind: spec.KCmd, Cmd: spec.BuildCmd("b", in, o1, nil, nil, nil)},
+				&spec.Proc{Name: "collect", Kind: spec.KCmd, Cmd: spec.BuildCmd("collect", in, o1, nil, nil, nil)},
+				&spec.Proc{Name: "extra", Kind: spec.KCmd, Cmd: spec.BuildCmd("extra", in, o1, nil, nil, nil)})
+			sb.Conns = append(sb.Conns, &spec.Conn{From: "src.out", To: "a.in"}, &spec.Conn{From: "src.out", To: "b.in"})
+			for _, f := range perm {
+				sb.Conns = append(sb.Conns, &spec.Conn{From: f + ".out", To: "collect.in"})
+			}
+			sb.Conns = append(sb.Conns, &spec.Conn{From: "b.out", To: "extra.in"})
+			for rep := 0; rep < c.Pick(10, 30); rep++ {
+				s2 := sb.Clone()
+				s2.Run = spec.Run{Mode: []string{"runto", "runtoregex", "runtoprocs"}[rep%3], Targets: []string{[]string{"collect", "^collect$", "collect"}[rep%3]}}
+				jobs = append(jobs, &job{s: s2, exp: evalRef(s2, nil), cfg: Cfg{Buf: 3, Procs: 2, SoftSec: 8}, kind: "runto", what: s2.Run.Mode + " collect (sibling feeders wired as " + strings.Join(perm, ",") + ")"})
+			}
+		}
+		for rep := 0; rep < c.Pick(6, 30); rep++ {
+			s2 := s.Clone()
+			s2.Run = spec.Run{Mode: []string{"runto", "runtoregex", "runtoprocs"}[rep%3], Targets: []string{[]string{"gatherer", "^gatherer$", "gatherer"}[rep%3]}}
+			jobs = append(jobs, &job{s: s2, exp: evalRef(s2, nil), cfg: Cfg{Buf: 3, Procs: 2, SoftSec: 8}, kind: "runto", what: s2.Run.Mode + " gatherer (feeders that are ancestors of feeders)"})
+		}
+	}
+	// a ParamCombinator port that only an excluded process uses, beside a slow selected process
+	for rep := 0; rep < c.Pick(3, 9); rep++ {
+		s := &spec.Spec{Name: "pcpartial", MaxTasks: 4, Sources: map[string]string{}}
+		s.Procs = append(s.Procs, &spec.Proc{Name: "pa", Kind: spec.KParamSource, Values: []string{"a1", "a2"}}, &spec.Proc{Name: "pb", Kind: spec.KParamSource, Values: []string{"b1"}},
+			&spec.Proc{Name: "pc", Kind: spec.KParamComb, Ports: []string{"u", "v"}},
+			&spec.Proc{Name: "train", Kind: spec.KCmd, Cmd: spec.BuildCmd("train", nil, []spec.PortDecl{{Name: "out"}}, []string{"u"}, nil, map[string]string{"sleep": "60"}), Outs: []*spec.Out{{Port: "out", Pattern: "train_{p:u}.out"}}},
+			&spec.Proc{Name: "summarize", Kind: spec.KCmd, Cmd: spec.BuildCmd("summarize", []spec.PortDecl{{Name: "in"}}, []spec.PortDecl{{Name: "out"}}, []string{"v"}, nil, nil)})
+		s.Conns = append(s.Conns, &spec.Conn{From: "pa.out", To: "pc.u", Param: true}, &spec.Conn{From: "pb.out", To: "pc.v", Param: true},
+			&spec.Conn{From: "pc.u", To: "train.u", Param: true}, &spec.Conn{From: "pc.v", To: "summarize.v", Param: true}, &spec.Conn{From: "train.out", To: "summarize.in"})
+		s.Run = spec.Run{Mode: []string{"runto", "runtoregex", "runtoprocs"}[rep%3], Targets: []string{[]string{"train", "^train$", "train"}[rep%3]}}
+		exp := evalRef(s, nil)
+		if exp.Err == "" {
+			jobs = append(jobs, &job{s: s, exp: exp, cfg: Cfg{Buf: []int{1, 128}[rep%2], Procs: 2, SoftSec: 8}, kind: "runto", what: s.Run.Mode + " train (a combinator port used only by the excluded process)"})
+		}
+	}
 	// process names that contain regexp metacharacters, with siblings that differ only there
 	{
 		s := &spec.Spec{Name: "metanames", MaxTasks: 4, Sources: map[string]string{"m0.txt": "m0\n", "m1.txt": "m1\n"}}
